@@ -11,6 +11,8 @@ import os
 import re
 
 R = "SA-SUMMARY"
+# formatting glue (argument order of `write!` is syntax, not behaviour) is left to the dedicated rules
+EXCLUDE = re.compile(r"::fmt$|FromStr>::from_str$")
 _REF = None
 
 
@@ -98,6 +100,10 @@ def check(ctx, prog, scope, floor=1):
             continue
         f = fs[0]
         n += 1
+        if (prog.cfg, f.path) in ctx.analysed["functions"]:
+            continue   # a dedicated rule of this check already reads this body: the normal form adds nothing there
+        if EXCLUDE.search(path):
+            continue
         ctx.visit(f)
         if not straight(f):
             ctx.ob(R, "%s is branch-free and has its reviewed value" % f.short, False, "no longer branch-free", f.loc())
